@@ -416,14 +416,14 @@ func c20LateStep(order []string) []string {
 
 // c20Lag watches the callbacks of a real transfer at the moment they are ATTEMPTED (export hook
 // `before`, outside the serialisation) and makes the goroutine that displays progress lag once per
-// file, the way a slow terminal does: the last data step of a file is held back until the next
-// file has been announced - or for 300 ms, which is what happens when the transfer orders its
+// phase of a file, the way a slow terminal does: the first step beyond 0 of the hash phase and of the data
+// phase is held back until the next file has been announced - or for 300 ms, which is what happens when the transfer orders its
 // callbacks (the main goroutine joins the display goroutine before it goes on).  Two callbacks in
 // flight at once mean the transfer does not order them.
 type c20Lag struct {
 	mu         sync.Mutex
 	inflight   []string
-	lastSize   int64
+	attempts   int
 	delayed    bool
 	mDelivered int
 	overlaps   [][3]string
@@ -460,13 +460,13 @@ func (l *c20Lag) before(kind string, num int64, name string) {
 			what, strings.Join(l.inflight, ", "), strings.Join(l.history, " "))})
 	}
 	l.inflight = append(l.inflight, what)
+	l.attempts++
+	mine := l.attempts
 	switch kind {
-	case "M":
-		l.delayed = false
-	case "Z":
-		l.lastSize = num
+	case "M", "Z":
+		l.delayed = false // one step is held back per phase: the hash steps and the data steps of every file
 	}
-	hold := kind == "S" && !l.delayed && num > 0 && num == l.lastSize
+	hold := kind == "S" && !l.delayed && num > 0
 	if hold {
 		l.delayed = true
 	}
@@ -487,12 +487,18 @@ func (l *c20Lag) before(kind string, num int64, name string) {
 		}
 	}
 	if hold {
+		// until the next file has been announced, or 30 ms after some other callback was attempted, or
+		// 300 ms - which is what it comes to when the transfer waits for this goroutine
+		other := 0
 		for i := 0; i < 300; i++ {
 			time.Sleep(time.Millisecond)
 			l.mu.Lock()
 			moved := l.mDelivered > seen
+			if l.attempts > mine {
+				other++
+			}
 			l.mu.Unlock()
-			if moved {
+			if moved || other >= 30 {
 				break
 			}
 		}
@@ -696,11 +702,14 @@ func genProgressFiles(c *ctx) {
 				paths = append(paths, filepath.Join(dir, "src", names[k]))
 			}
 			os.MkdirAll(filepath.Join(dir, "dst"), 0755)
+			if d2, err := os.ReadFile(paths[1]); err == nil {
+				os.WriteFile(filepath.Join(dir, "dst", names[1]), d2[:100000], 0644) // the second file is resumed (protocol >= 3)
+			}
 			side := "receiver"
 			if onSender {
 				side = "sender"
 			}
-			f := c.c20NewFiles(&clock, base, 120, fmt.Sprintf("real transfer with a lagging display goroutine, protocol %d, callbacks of the %s, files 65536 307200 5000 bytes", proto, side),
+			f := c.c20NewFiles(&clock, base, 120, fmt.Sprintf("real transfer with a lagging display goroutine, protocol %d, callbacks of the %s, files 65536 307200 (100000 at the destination) 5000 bytes", proto, side),
 				func() int64 { return 1000 })
 			f.noThrottle = true
 			lag := &c20Lag{}
